@@ -4,7 +4,8 @@ Implementation-side metamorphic checks (YAML, CSV and the command line are not i
 same specification as mapping / list of groups / YAML stream / YAML file / `python -m
 ladim_plugins.release` gives identical tables; seeded repeated runs are identical, also when the very same mapping object is passed again; the written file
 (tab separated, no header) parses back (Python `float`, what LADiM uses) to exactly the returned
-table; missing-key configurations are rejected with an error naming exactly what is missing.  The table of a seeded
+table; missing-key configurations are rejected with an error naming exactly what is missing, whatever else the groups
+hold (nothing at all: the empty group; a non-mapping in the place of a group is rejected).  The table of a seeded
 specification does not depend on the releases made earlier in the process (families of near-identical specifications:
 long outlines and tables revised in the middle, changes behind the eighth decimal, a GeoJSON path with new content),
 judged against the command line in a process of its own.
@@ -53,7 +54,20 @@ RULE = ("YAML-serialisable configurations: 1..4 groups, num in {0,1,2,3,7,40}, a
         "numpy's real generator), flat mapping with / without seed when no top-level name is used at group level, each "
         "as object, YAML stream and YAML file; list against mapping under one recorded draw stream; the file written "
         "for the list; 3 quick / 16 thorough through the command line in a process of its own (list document, the "
-        "process seeding first / grouped document). Non-trivial: every configuration.")
+        "process seeding first / grouped document). Error path, what else a group holds (the combinations above always "
+        "carry the one attribute `depth`): (a) groups holding nothing but their necessary parameters, down to the "
+        "completely empty group {} (all three missing, no other key): all 2^3 combinations over 1..2 groups, over 3 "
+        "groups those with an empty group (40% quick / all thorough) and 10% / all of the others, in the containers list, "
+        "grouped with seed / without seed / with seed and columns, and (one group) flat likewise (a flat mapping of "
+        "global parameters only, the empty mapping), each as object and YAML stream or file (all three when a group is "
+        "empty and there are at most 2 groups); (b) 150 quick / 2500 thorough random configurations of 1..4 groups, per "
+        "group a missing-key mask (empty and complete over-represented) and other keys from: none / depth / depth: 0 / "
+        "attrs: {} / attrs with one attribute / three attributes, random container of the above, object and possibly "
+        "YAML stream or file; configurations with an empty group also through `python -m ladim_plugins.release` "
+        "(up to 5 quick / 24 thorough); (c) a non-mapping in the place of a group (None = a dangling hyphen in the YAML "
+        "list, [], '', 0, False) at every position of 1..3 groups, the other groups random as in (b), list / grouped "
+        "with / without seed, object / YAML stream (the None as a bare `-`) / YAML file: rejected (ValueError or "
+        "TypeError), no file. Non-trivial: every configuration.")
 ASSUMPTIONS = ["yaml.safe_load / pandas.to_csv / the CLI are exercised, not modelled",
                "the one-argument command line prints pandas' default rendering of the table: it is compared for tables of "
                "four columns and at most 50 rows (no truncation, no wrapping), numbers at the display precision of 6 digits"]
@@ -913,6 +927,204 @@ def judge_missing(ctx, err, combo, keys, site, cs):
                            "error %r says group %d lacks %r, it lacks %r" % (err, gi, sorted(named_keys(seg, keys)), sorted(missing[gi])), cs)
 
 
+# ---- error path, the dimension "what else the group holds".  A group that lacks necessary parameters may hold any other
+# keys — or none at all: the completely empty group (`- {}` in a YAML list, a flat mapping of global parameters only, an
+# empty mapping) is the missing-key combination date + location + num with nothing beside it.
+OTHER_KEYS = [
+    ("none", {}),
+    ("depth", {"depth": 1}),
+    ("falsy_value", {"depth": 0}),
+    ("attrs_empty", {"attrs": {}}),
+    ("attrs", {"attrs": {"weight": 2.5}}),
+    ("several", {"group_id": 3, "age": [1.0, 3.0], "depth": [0, 10]}),
+]
+# what stands in the place of a group without being a mapping (a dangling hyphen in a YAML list loads to None)
+NON_MAPPING_GROUPS = [("none", None), ("empty_list", []), ("empty_text", ""), ("zero", 0), ("false", False)]
+
+
+def group_with(base, mask, other):
+    """the group lacking the necessary parameters of `mask` (bit i: i-th key of `base`), holding the keys of `other`"""
+    g = {k: copy.deepcopy(v) for i, (k, v) in enumerate(base.items()) if not (mask >> i) & 1}
+    g.update(copy.deepcopy(other))
+    return g
+
+
+def error_containers(ng):
+    """(name, shape, global parameters) of the containers that can hold `ng` groups"""
+    out = [("list", "list", {}), ("grouped", "grouped", {"seed": 1}), ("grouped_seedless", "grouped", {}),
+           ("grouped_columns", "grouped", {"seed": 1, "columns": ["date", "latitude"]})]
+    if ng == 1:
+        out += [("flat", "flat", {"seed": 1}), ("flat_seedless", "flat", {}),
+                ("flat_columns", "flat", {"columns": ["date", "latitude"], "seed": 1})]
+    return out
+
+
+def build_container(shape, glob, groups):
+    """the configuration object and the request to the model's `table.validate` (token list)"""
+    def gtoks(g):
+        return [len(g)] + list(g.keys())
+    if shape == "flat":
+        conf = dict(copy.deepcopy(groups[0])); conf.update(copy.deepcopy(glob))
+        toks = [0] + gtoks(conf)
+    elif shape == "list":
+        conf = copy.deepcopy(groups)
+        toks = [1, len(groups)] + [t for g in groups for t in gtoks(g)]
+    else:
+        conf = dict(copy.deepcopy(glob)); conf["groups"] = copy.deepcopy(groups)
+        toks = [2] + gtoks(glob) + [len(groups)] + [t for g in groups for t in gtoks(g)]
+    return conf, " ".join(str(t) for t in toks)
+
+
+def other_keys_checks(ctx, mk, yaml, tmp, cli, drv, pend, base, keys):
+    """All missing-key combinations x what else the groups hold (nothing at all, one attribute, a falsy value, `attrs`,
+    several attributes) x every container (list, grouped with / without seed / with columns, flat likewise) x object /
+    YAML stream / YAML file / command line; and lists in which a non-mapping (None: a dangling hyphen) stands for a group."""
+    site = SITE + "::load_config"
+    err_out = os.path.join(tmp, "err_out2.rls")
+    state = dict(n_cli=0, n_file=0)
+
+    def call(supplied):
+        if os.path.exists(err_out):
+            os.remove(err_out)
+        err = None; res = None
+        try:
+            res = mk.make_release(supplied, err_out)
+        except ValueError as e:
+            err = str(e)
+        except Exception as e:
+            err = "OTHER " + repr(e)
+        return res, err
+
+    def one(groups, combo, cname, shape, glob, vias, labels, want_cli=False):
+        conf, kind = build_container(shape, glob, groups)
+        any_missing = any(m != 0 for m in combo)
+        ytext = yaml.safe_dump(conf, sort_keys=False)
+        empty = [gi for gi, g in enumerate(groups) if len(g) == 0]
+        for via in vias:
+            cs = dict(container=cname, via=via, config=copy.deepcopy(conf), groups=copy.deepcopy(groups), missing_masks=list(combo),
+                      other_keys=labels, yaml=ytext)
+            ctx.case(key=("err2", cname, via, combo, tuple(labels)), nontrivial=True)
+            ctx.branch("missing_keys.other_keys"); ctx.branch("missing_keys.container." + cname); ctx.branch("missing_keys.via." + via)
+            for lb in set(labels):
+                ctx.branch("missing_keys.other." + lb)
+            if empty:
+                ctx.branch("missing_keys.empty_group")
+                ctx.branch("missing_keys.empty_group.%s.%s" % (cname, via))
+                if len(empty) == len(groups):
+                    ctx.branch("missing_keys.empty_group.all_groups")
+                elif any(combo[gi] == 0 for gi in range(len(groups))):
+                    ctx.branch("missing_keys.empty_group.beside_complete_groups")
+            if via == "object":
+                supplied = copy.deepcopy(conf)
+            elif via == "yaml_stream":
+                supplied = io.StringIO(ytext)
+            else:
+                state["n_file"] += 1
+                supplied = os.path.join(tmp, "err2_%d.yaml" % (state["n_file"] % 4))
+                with open(supplied, "w", encoding="utf8") as f:
+                    f.write(ytext)
+            res, err = call(supplied)
+            if any_missing:
+                ctx.oracle(err is not None and not err.startswith("OTHER"), "C18.invalid.not_rejected", site,
+                           "groups lack necessary parameters (masks %r over %r, other keys %r) but the result is %s / the error %r"
+                           % (list(combo), keys, labels, "no table" if res is None else
+                              "a (partial) table of %d rows, columns %r" % (nrows_of(res), list(res.keys())), err), cs)
+                ctx.oracle(not os.path.exists(err_out), "C18.invalid.partial_file", SITE + "::make_release",
+                           "missing keys (error %r) but an output file was written" % (err,), cs)
+                if err and not err.startswith("OTHER"):
+                    judge_missing(ctx, err, combo, keys, site, cs)
+            else:
+                ctx.oracle(err is None, "C18.valid.rejected", site, "complete configuration rejected: %r" % err, cs)
+            if drv.available and via == "object":
+                pend.append((drv.ask("table.validate", kind), err, combo, cs))
+        # through the command line: failing exit status, no output file, the error names the keys
+        if want_cli and any_missing:
+            state["n_cli"] += 1
+            ctx.branch("cli.invalid"); ctx.branch("cli.invalid.other_keys")
+            if empty:
+                ctx.branch("cli.invalid.empty_group")
+            p_in = os.path.join(tmp, "clierr2_%d.yaml" % state["n_cli"]); p_out = os.path.join(tmp, "clierr2_%d.rls" % state["n_cli"])
+            with open(p_in, "w", encoding="utf8") as f:
+                f.write(ytext)
+
+            def then(rc, out, serr, p_out=p_out, combo=combo,
+                     cs=dict(container=cname, via="command line", config=copy.deepcopy(conf), missing_masks=list(combo), other_keys=labels, yaml=ytext)):
+                ctx.oracle(rc != 0, "C18.invalid.cli_exit_status", MAIN,
+                           "missing keys (masks %r), but the command line exits with status 0 (%s)" % (list(combo), serr[-200:]), cs)
+                ctx.oracle(not os.path.exists(p_out), "C18.invalid.partial_file", MAIN,
+                           "missing keys (masks %r), but the command line wrote an output file" % (list(combo),), cs)
+                if rc != 0:
+                    judge_missing(ctx, serr.split("ValueError: ")[-1], combo, keys, MAIN, cs)
+            cli.launch([sys.executable, "-m", "ladim_plugins.release", p_in, p_out], then)
+
+    none = dict(OTHER_KEYS)["none"]
+    # -- (a) systematic: the groups hold nothing but (some of) the necessary parameters; every combination over 1..2
+    # groups, over 3 groups every combination with an empty group and a sample of the others; every container
+    for ng in (1, 2, 3):
+        for combo in itertools.product(range(8), repeat=ng):
+            if ng == 3 and ctx.tier != "thorough" and ctx.rng.random() < (0.6 if 7 in combo else 0.9):
+                continue
+            groups = [group_with(base, m, none) for m in combo]
+            for cname, shape, glob in error_containers(ng):
+                has_empty = 7 in combo
+                # an empty group: object, stream and file; otherwise object and one of the YAML forms
+                vias = ("object", "yaml_stream", "yaml_file") if (has_empty and ng < 3) else ("object", ctx.rng.choice(["yaml_stream", "yaml_file"]))
+                want_cli = has_empty and cname in ("list", "grouped", "flat", "flat_seedless") and state["n_cli"] < ctx.n(3, 14) and \
+                    (ng == 1 or ctx.rng.random() < 0.08)
+                one(groups, combo, cname, shape, glob, vias, ["none"] * ng, want_cli)
+    # -- (b) random: 1..4 groups, each lacking a random subset (empty and complete ones over-represented) and holding a
+    # random choice of other keys
+    for c in range(ctx.n(150, 2500)):
+        ng = ctx.rng.choice([1, 2, 2, 3, 4])
+        combo = tuple(ctx.rng.choice([0, 0, 7, 7, ctx.rng.randrange(8)]) for _ in range(ng))
+        picks = [ctx.rng.choice(OTHER_KEYS) for _ in range(ng)]
+        if all(m == 0 for m in combo) and ctx.rng.random() < 0.8:
+            continue
+        groups = [group_with(base, m, o) for m, (_, o) in zip(combo, picks)]
+        cname, shape, glob = ctx.rng.choice(error_containers(ng))
+        via = ctx.rng.choice(["object", "yaml_stream", "yaml_file"])
+        want_cli = any(len(g) == 0 for g in groups) and state["n_cli"] < ctx.n(5, 24) and ctx.rng.random() < 0.1
+        one(groups, combo, cname, shape, glob, (via,) if via == "object" else ("object", via), [lb for lb, _ in picks], want_cli)
+    # -- (c) something that is no mapping stands in the place of a group (`-` with nothing behind it loads to None).
+    # The statement: an invalid configuration is rejected with an error instead of producing a partial table (what
+    # the error says about a non-mapping is not laid down)
+    for ng in (1, 2, 3):
+        for at in range(ng):
+            for lb, nm in NON_MAPPING_GROUPS:
+                others = [ctx.rng.choice([0, 0, 0, 7, ctx.rng.randrange(8)]) for _ in range(ng)]
+                groups = [nm if gi == at else group_with(base, others[gi], ctx.rng.choice(OTHER_KEYS)[1]) for gi in range(ng)]
+                for cname, glob in (("list", None), ("grouped", {"seed": 1}), ("grouped_seedless", {})):
+                    conf = copy.deepcopy(groups) if glob is None else dict(glob, groups=copy.deepcopy(groups))
+                    ytext = yaml.safe_dump(conf, sort_keys=False)
+                    if nm is None:
+                        ytext = ytext.replace("- null\n", "-\n")            # the dangling hyphen
+                    for via in ("object", "yaml_stream", "yaml_file"):
+                        cs = dict(container=cname, via=via, config=copy.deepcopy(conf), yaml=ytext, non_mapping_group=at)
+                        ctx.case(key=("err3", cname, via, ng, at, lb, tuple(others)), nontrivial=True)
+                        ctx.branch("invalid.non_mapping_group"); ctx.branch("invalid.non_mapping_group." + lb)
+                        ctx.branch("invalid.non_mapping_group.%s.%s" % (cname, via))
+                        if via == "object":
+                            supplied = copy.deepcopy(conf)
+                        elif via == "yaml_stream":
+                            supplied = io.StringIO(ytext)
+                        else:
+                            supplied = os.path.join(tmp, "err3.yaml")
+                            with open(supplied, "w", encoding="utf8") as f:
+                                f.write(ytext)
+                        if os.path.exists(err_out):
+                            os.remove(err_out)
+                        err = None; res = None
+                        try:
+                            res = mk.make_release(supplied, err_out)
+                        except (ValueError, TypeError) as e:
+                            err = repr(e)
+                        ctx.oracle(err is not None, "C18.invalid.non_mapping_group_not_rejected", site,
+                                   "group %d of %d is %r, no mapping, but a table of %s rows is returned"
+                                   % (at, ng, nm, "?" if res is None else nrows_of(res)), cs)
+                        ctx.oracle(not os.path.exists(err_out), "C18.invalid.partial_file", SITE + "::make_release",
+                                   "group %d of %d is %r (error %r) but an output file was written" % (at, ng, nm, err), cs)
+
+
 def run(ctx):
     import yaml
     mk = importlib.import_module("ladim_plugins.release.makrel")
@@ -1314,6 +1526,8 @@ def run(ctx):
                         ctx.oracle(err is None, "C18.valid.rejected", SITE + "::load_config", "complete configuration rejected: %r" % err, cs)
                     if drv.available:
                         pend.append((drv.ask("table.validate", kind), err, combo, cs))
+        # ... the same over what else the groups hold (above: always one attribute, `depth`), down to the empty group
+        other_keys_checks(ctx, mk, yaml, tmp, cli, drv, pend, base, keys)
         cli.drain()
         # ---- other invalid configurations (statement: rejected with an error, no partial table): a malformed date in
         # one of the groups, a document that is no mapping / list, malformed YAML.  Not in the model's driver protocol.
